@@ -16,7 +16,7 @@ BOUNDS = {"quick": {"particles": "1 symbolic + 1 concrete", "compositions": "2 s
           "thorough": {"particles": "2 symbolic + 1 concrete", "compositions": "2 steps"}}
 EXPECTED_EXCEPTIONS = ()
 OPTS = {"max_paths": 1200}
-OPTS_THOROUGH = {"max_paths": 6000, "budget_s": 1500}
+OPTS_THOROUGH = {"max_paths": 6000, "budget_s": 1200}
 
 
 def _second(tomo=2.0):
